@@ -1,8 +1,8 @@
 (* Model of the graph exports, at the level of vertex ids, labels and edges:
    - bigtree/tree/export.py `tree_to_dot` (1294-1331): `_recursive_append` with the dictionary
      `name_dict : label -> list of path names`; vertex id = label ++ str(index of the node's path
-     name in name_dict[label]); one edge parent id -> child id.  pydot objects and styling are not
-     modelled.
+     name in name_dict[label]); one edge parent id -> child id.  Of pydot only the way Node() stores
+     its name is modelled (`pydot_name`); styling is not.
    - `tree_to_mermaid` (1639-1729): `MermaidNode.mermaid_name` ("0" for the root, otherwise
      parent's name ++ "-" ++ index among the parent's children) and one flow line per non-root node
      in pre-order (default node shape `("label")`, default arrow `-->`, no edge labels / styles).
@@ -66,7 +66,30 @@ Fixpoint dot_go (sep : str) (parent_id : option str) (ppath : str) (t : tree) (s
 Definition dot_graph (sep : str) (t : tree) : dstate :=
   dot_go sep None [] (compact t) (DS [] [] []).
 
-Definition dot_nodes (sep : str) (t : tree) : list (str * str) := ds_nodes (dot_graph sep t).
+(* the names bigtree computes, as passed to pydot.Node(name=..., label=...) *)
+Definition dot_raw_nodes (sep : str) (t : tree) : list (str * str) := ds_nodes (dot_graph sep t).
+
+(* What the vertex is called inside the pydot graph.  pydot.Node.__init__ (pydot 4.0.1 core.py:688-694)
+   removes a "port" from the name: unless the name starts with a double quote, everything from the
+   first ':' on is cut off when that ':' is neither the first nor the last character.  pydot.Edge
+   keeps its end points as given (core.py:794-806).  (Known finding K5.) *)
+Fixpoint find_char (c : N) (s : str) : option nat :=
+  match s with
+  | [] => None
+  | x :: r => if N.eqb x c then Some 0 else option_map S (find_char c r)
+  end.
+
+Definition pydot_name (s : str) : str :=
+  match s with
+  | 34%N :: _ => s
+  | _ => match find_char 58%N s with
+         | Some idx => if Nat.ltb 0 idx && Nat.ltb (idx + 1) (length s) then firstn idx s else s
+         | None => s
+         end
+  end.
+
+Definition dot_nodes (sep : str) (t : tree) : list (str * str) :=
+  map (fun x => (pydot_name (fst x), snd x)) (dot_raw_nodes sep t).
 Definition dot_edges (sep : str) (t : tree) : list (str * str) := ds_edges (dot_graph sep t).
 
 (* ---------------------------------------------------------------------------------------------- *)
